@@ -68,7 +68,7 @@ CHECKS.update({
     'C13': dict(level='other', technique='abstract interpretation per bound N on N-bit pattern cells + unit/layout dataflow (R8) + selector dependence slice (R5)',
         text=('NaR/zero algebra, N==2 branches and guard cells of + - * / mul_add mul_sub sub_product sqrt round of PxE1<N>/PxE2<N> per bound N (quick: 8 widths, thorough: all 31); '
               'exponent extraction and regime scaling must use the units of the decoding type; the kernel result must depend on the selector. N-bit rounding on the general path and the '
-              'rounding-matrix, fused and sparse-product probes of the N-bit format decided singly for N in {5,8,16,32}. PxE2<32>==P32E2 / PxE1<16>==P16E1 equivalences are NOT decided. 24 genuine defects of the generic kernels are listed as known findings.'), design='4/C13'),
+              'rounding cells with one symbolic operand (as in C01 / C05) on PxE2<N> + - * / and the fused family and on PxE1<N> * / for N in {8,32} (thorough: 16 too); rounding-matrix, fused and sparse-product probes of the N-bit format decided singly for N in {5,8,16,32}. PxE2<32>==P32E2 / PxE1<16>==P16E1 equivalences are NOT decided. 24 genuine defects of the generic kernels are listed as known findings.'), design='4/C13'),
     'C14': dict(level='other', technique='abstract interpretation per bound N (and per (M,N) pair) on source cells + bit routing per regime cell for to_f64',
         text=('Zero/NaR preservation, N==2 and saturation cells, integer heads of all generic-width conversions per bound N; to_f64 exact by routing; fixed <-> generic and generic -> generic posit conversions proved correctly rounded on rounding cells for the analysed widths (sticky position sampled); from_f64 decided on probe floats. '
               'Integer <-> generic conversions beyond the guard cells and quire->PxE2 NOT decided. 12 genuine defects listed as known findings.'), design='4/C14'),
